@@ -80,6 +80,9 @@ impl Regs {
 //@ sig
         ensures index == RegName16::IX ==> r == self.ix(), index == RegName16::DE ==> r == self.de(),
             index == RegName16::PC ==> r == self.pc, index == RegName16::SP ==> r == self.sp,
+            index == RegName16::MemPtr ==> r == self.mem_ptr,
+            index == RegName16::AF ==> r == w16(self.a, self.f), index == RegName16::BC ==> r == w16(self.b, self.c),
+            index == RegName16::HL ==> r == w16(self.h, self.l), index == RegName16::IY ==> r == w16(self.iyh, self.iyl),
 //@ end
 //@ fn rustzx-z80/src/registers.rs impl Regs::set_reg_16 props C10
 //@ ret r
@@ -90,6 +93,17 @@ impl Regs {
             index == RegName16::DE ==> final(self).de() == value
                 && *final(self) == (Regs { d: final(self).d, e: final(self).e, ..*old(self) }),
             index == RegName16::PC ==> *final(self) == (Regs { pc: value, ..*old(self) }),
+            index == RegName16::SP ==> *final(self) == (Regs { sp: value, ..*old(self) }),
+            index == RegName16::MemPtr ==> *final(self) == (Regs { mem_ptr: value, ..*old(self) }),
+            index == RegName16::AF ==> w16(final(self).a, final(self).f) == value
+                && *final(self) == (Regs { a: final(self).a, f: final(self).f, ..*old(self) }),
+            index == RegName16::BC ==> w16(final(self).b, final(self).c) == value
+                && *final(self) == (Regs { b: final(self).b, c: final(self).c, ..*old(self) }),
+            index == RegName16::HL ==> w16(final(self).h, final(self).l) == value
+                && *final(self) == (Regs { h: final(self).h, l: final(self).l, ..*old(self) }),
+            index == RegName16::IY ==> w16(final(self).iyh, final(self).iyl) == value
+                && *final(self) == (Regs { iyh: final(self).iyh, iyl: final(self).iyl, ..*old(self) }),
+            r == value,
 //@ at 1 /match index/
         proof {
             assert((((value & 0xff) as u8) as u16) | ((((value >> 8) as u8) as u16) << 8) == value) by(bit_vector);
